@@ -379,9 +379,19 @@ def run(ctx):
     os.environ.update(TLC_ENV)   # deep recursion of the reference decoder (one level per chunk and stage) needs a larger Java stack
     exe = ucheck.build_like_test(ctx, 'chunked', 'testHttp1Parser', ['u_chunked.cc', 'uhelp.cc'], add=['src/SquidConfig.cc'])
     ctx.log('driver built')
-    encs = tlc_encodings(ctx)
-    ctx.log('spec laws hold; TLC generated %d valid encodings' % len(encs))
-    cases = gen(ctx, encs)
+    if ctx.replay:
+        # re-evaluate one recorded witness: same input and mode, every split point and capacity plus the recorded schedules
+        w = json.load(open(ctx.replay))['witness']
+        inb = bytes.fromhex(w['input_hex']) if w['input_hex'] != '-' else b''
+        runs = (['ALL', 'DRIP/0', 'DRIP/1'] if len(inb) <= 400 else ['0/', 'DRIP/0'])
+        for r in w.get('refused', []):
+            cuts = ','.join(str(st[0]) for st in r['rounds [delivered, outcome, consumed, decoded]'])
+            runs += ['%d/%s' % (c, cuts) for c in r['caps']]
+        cases = [(w['relaxed'], inb, runs, w.get('family', 'replay'))]
+    else:
+        encs = tlc_encodings(ctx)
+        ctx.log('spec laws hold; TLC generated %d valid encodings' % len(encs))
+        cases = gen(ctx, encs)
     outs, deaths = drive(ctx, exe, cases)
     for idx, rc, err in deaths:
         ctx.violation('decoder died (rc=%s) on input %r runs %s: %s' % (rc, cases[idx][1][:200], cases[idx][2], err[-400:]),
@@ -435,9 +445,9 @@ def run(ctx):
         for r in o['runs']:
             oc = r['steps'][-1][1]
             ctx.cov['final_outcomes'][oc] = ctx.cov['final_outcomes'].get(oc, 0) + len(r['caps'])
-    ctx.cov['max_input_bytes'] = max(len(o['in']) for o in recs)
+    ctx.cov['max_input_bytes'] = max([len(o['in']) for o in recs] + [0])
     ctx.cov['ub_reports'] = sum(1 for o in recs if o['ub'])
-    for o in (recs[0], recs[len(recs) // 3], recs[len(recs) // 2]):
+    for o in ([recs[0], recs[len(recs) // 3], recs[len(recs) // 2]] if recs else []):
         ctx.sample({'in': bytes(o['in'])[:80].decode('latin-1'), 'relaxed': o['relaxed'],
                     'first_schedule [delivered, outcome, consumed, decoded]': [st[:4] for st in o['runs'][0]['steps']][:6]})
     ctx.cov['rule'] = ('every valid encoding generated by TLC from Encode() over the MC domain; every string up to 3 (thorough: 4) bytes over '
